@@ -86,7 +86,7 @@ SMALL = [
 class Prop:
     id = "C14"
     lean_module = "MuduoVerif.Props.C14"
-    gen_engines = ["Monitor"]
+    gen_engines = ["Monitor", "ThreadSkel"]
     drivers = ["monitor"]
     technique = ("Lean 4 invariant proofs over thread-indexed transition systems (mutex owner, explicit wait-sets, spurious "
                  "wake-ups, unbounded threads/capacity) whose statement skeletons and guards are T1-extracted from the sources "
@@ -112,6 +112,7 @@ class Prop:
         "Lean 4.33.0 kernel; axioms allowed: propext, Classical.choice, Quot.sound",
         "vlib/extract.py + vlib/gen/monitor.py (clang-14 JSON AST -> Generated/Monitor.lean: statement skeletons and loop guards)",
         "hand-written Model/Monitor.lean (interpretation of the skeletons), tied by identical-schedule differential runs",
+        "vlib/gen/threadskel.py + vlib/logskel_common.py (same AST -> Generated/ThreadSkel.lean: statement skeletons of MutexLock / MutexLockGuard / UnassignGuard (Mutex.h), Condition (Condition.h, Condition.cc), CountDownLatch.cc, and the deadline arithmetic of Condition::waitForSeconds translated into Lean (exact while nothing leaves int64_t; the double -> int64_t conversion of `seconds` is a parameter)) and the hand-written reading Model/ThreadSkelDecl.lean (which atomic step of the model stands for which statements): that the code calls pthread in the modelled order is tied by decide; what the pthread / libc functions do stays trusted (POSIX)",
         "harness/sched/detsched.h (link-level interposition of pthread mutex/cond/create/join; one thread runs at a time)",
         "pthread mutexes and condition variables behave as Mesa monitors with spurious wake-ups; std::deque, boost::circular_buffer",
     ]
